@@ -222,7 +222,16 @@ class Contract:
                 n = self.rename(n)
                 if isinstance(f, bool):
                     f = z3.BoolVal(f)
-                v, m, dt = E.discharge(p.run, f, npc, nax, timeout_ms=self.timeout_ms)
+                unk = getattr(self, '_unk', None)
+                if unk is None:
+                    unk = self._unk = {}
+                if unk.get(n, 0) >= 2:
+                    # already undecided twice: do not burn the budget again on every further path
+                    v, m, dt = 'unknown', 'skipped after repeated solver budget exhaustion on other paths', 0.0
+                else:
+                    v, m, dt = E.discharge(p.run, f, npc, nax, timeout_ms=self.timeout_ms)
+                    if v == 'unknown':
+                        unk[n] = unk.get(n, 0) + 1
                 if n not in self.by_name:
                     self.by_name[n] = []
                     self.order.append(n)
